@@ -223,6 +223,9 @@ func Random(seed int64, idx int, opt RandOpt) *Entry {
 					JSON("t_" + snake(fl.Name) + ",omitempty")(fl)
 				case 2:
 					JSON("-")(fl)
+				case 3:
+					// taken verbatim: camelCase
+					JSON("camel" + strings.ReplaceAll(strings.Title(strings.ReplaceAll(fl.Name, "_", " ")), " ", "") + ",omitempty")(fl)
 				}
 			}
 			m.Fields = append(m.Fields, fl)
